@@ -372,11 +372,8 @@ func (i *insertExecutor) parsePkValuesFromStatement(insertStmt *ast.InsertStmt, 
 			}
 			currentRowPlaceholderNum := -1
 			for _, r := range row {
-				rStr, ok := r.(string)
-				if ok && strings.EqualFold(rStr, sqlPlaceholder) {
-					totalPlaceholderNum += 1
-					currentRowPlaceholderNum += 1
-				}
+				totalPlaceholderNum += placeholdersOf(r)
+				currentRowPlaceholderNum += placeholdersOf(r)
 			}
 			var pkKey string
 			var pkIndex int
@@ -395,17 +392,13 @@ func (i *insertExecutor) parsePkValuesFromStatement(insertStmt *ast.InsertStmt, 
 				pkValue := row[pkIndex]
 				pkValueStr, ok := pkValue.(string)
 				if ok && strings.EqualFold(pkValueStr, sqlPlaceholder) {
-					currentRowNotPlaceholderNumBeforePkIndex := 0
-					for i := range row {
-						r := row[i]
-						rStr, ok := r.(string)
-						// every value before the key that is not a placeholder: a string literal or, as the
-						// parser delivers numbers, a value of another type
-						if i < pkIndex && !(ok && strings.EqualFold(rStr, sqlPlaceholder)) {
-							currentRowNotPlaceholderNumBeforePkIndex++
-						}
+					// the arguments the values before the key take: one for a placeholder, none for a literal, as many
+					// as it holds for an expression
+					placeholdersBeforePk := 0
+					for i := 0; i < pkIndex && i < len(row); i++ {
+						placeholdersBeforePk += placeholdersOf(row[i])
 					}
-					idx := totalPlaceholderNum - currentRowPlaceholderNum + pkIndex - currentRowNotPlaceholderNumBeforePkIndex
+					idx := totalPlaceholderNum - currentRowPlaceholderNum + placeholdersBeforePk
 					pkValues = append(pkValues, nameValues[idx].Value)
 				} else {
 					pkValues = append(pkValues, pkValue)
@@ -636,6 +629,31 @@ func keyLiteralOf(node ast.ExprNode) (interface{}, bool) {
 	return nil, false
 }
 
+// paramsInside stands in a row of getInsertRows for an expression that is not a value: the number of placeholders
+// inside it
+type paramsInside int
+
+// placeholdersOf is how many arguments of the statement an element of a row of getInsertRows takes
+func placeholdersOf(element interface{}) int {
+	if text, ok := element.(string); ok && strings.EqualFold(text, sqlPlaceholder) {
+		return 1
+	}
+	if n, ok := element.(paramsInside); ok {
+		return int(n)
+	}
+	return 0
+}
+
+// countParamMarkers counts the placeholders in an expression
+func countParamMarkers(node ast.Node) int {
+	if node == nil {
+		return 0
+	}
+	var positions []int32
+	node.Accept(paramMarkerCollector{argsIndex: &positions})
+	return len(positions)
+}
+
 func getInsertRows(insertStmt *ast.InsertStmt, pkIndexArray []int) ([][]interface{}, error) {
 	if insertStmt == nil {
 		return nil, nil
@@ -663,6 +681,10 @@ func getInsertRows(insertStmt *ast.InsertStmt, pkIndexArray []int) ([][]interfac
 				row = append(row, value)
 			} else if newNode, ok := node.(*ast.VariableExpr); ok {
 				row = append(row, newNode.Name)
+			} else if n := countParamMarkers(node); n > 0 && !isPk {
+				// an expression that takes arguments of the statement (UPPER(?), ? + 1): the arguments of the
+				// values after it are that many further on
+				row = append(row, paramsInside(n))
 			} else if _, ok := node.(*ast.FuncCallExpr); ok {
 				row = append(row, ast.FuncCallExpr{})
 			} else {
